@@ -73,6 +73,9 @@ def driver_B():
         func("fact", [("int", "n")], "int", [("decl", "int", "keep", V("n")), ("if", B(">", V("n"), lit(1)), ("block", [("decl", "int", "sub", ("call", "fact", [B("-", V("n"), lit(1))])),
                                                                                                                         ("ret", B("*", V("keep"), V("sub")))]), None), ("ret", lit(1))], export=False),
         func("callrec", [("int", "d")], "int", [("ret", B("+", ("call", "fact", [B("+", V("d"), lit(3))]), B("*", V("counter"), lit(1000))))]),
+        # a call site with literal arguments only, whose callee writes to its parameter: every invocation binds the literal afresh
+        func("drain", [("int", "k")], "int", [ASG(V("k"), B("-", V("k"), lit(1))), ("ret", V("k"))], export=False),
+        func("literalsite", [("int", "d")], "int", [("ret", B("+", B("*", ("call", "drain", [lit(3)]), lit(10)), V("d")))]),
     ]
     return {"name": "B", "prog": lang.prog(fs, globals_, structs), "domains": {"counter": [0, 1]},
             "invoke": [(f["name"], a) for f in fs if f["export"] for a in (0, 1)]}
